@@ -220,6 +220,30 @@ Example C06_generated_example :
           (fun x' => snd b' x' * kernel QcF 4 cs4 sn4 ex_Z ((nth (Z.to_nat (fst bx)) [1; 0] 0 - fst b') * 2 + snd bx - x')%Z))
           (train QcF P p)))%Qc) [(0, 0); (0, 1); (1, 0); (1, 1)].
 Proof. split; [intros l Hl; exact Hl|vm_compute; reflexivity]. Qed.
+(** non-vacuity of "for every history" with a c2r that really destroys its input (strengthening driven by seed C06-G):
+    the clobber swaps cells 0 and 1 of the loss spectrum (hypothesis (B) holds: the top cell is left alone), the
+    impedance is band-limited (Z_1 = 0, only Z_0 = 3+5i below N/2), one bunch in bucket 1 of a pattern like {1,0}.
+    The second and third wakePotential() call return the convolution of THEIR OWN profile (kernel = Re Z_0 = 3):
+    scaling 2 * 3 * (5+7) = 72, then 2 * 3 * (1+2) = 18, as a fresh object would - every cell below N/2 is
+    rewritten on every call, also where the impedance is zero. *)
+Example C06_generated_repeated_calls_example :
+  let swap01 := fun l : list (cplx QcF) => match l with (a :: b :: c :: nil) => (b :: a :: c :: nil) | _ => l end in
+  let zB := fun k : Z => match k with 0 => (Qcz 3, Qcz 5) | 2 => (Qcz 7, Qcz 7) | _ => (0%Qc, 0%Qc) end in
+  let P := Fobj QcF 4 cs4 sn4 2 2 [1] zB (Qcz 2) 1%Qc 1%Qc 1%Qc (fun i => Qcz i) (fun x => x)
+                (fun c => (c ?= 0)%Qc) swap01 in
+  let p := getz 0%Qc (map Qcz [1; 2]) in
+  let q := getz 0%Qc (map Qcz [5; 7]) in
+  hypB (E_of QcF P) /\
+  map (wake (run_gen QcF P ([Wake p] ++ [Wake q]))) (zrange 2) = map Qcz [72; 72] /\
+  map (wake (run_gen QcF P ([Wake p; Wake q] ++ [Wake p]))) (zrange 2) = map Qcz [18; 18] /\
+  map (wake (run_gen QcF P ([] ++ [Wake p]))) (zrange 2) = map Qcz [18; 18] /\
+  map (bp (run_gen QcF P ([Wake p] ++ [Wake q]))) (zrange 4) = map Qcz [0; 0; 5; 7].
+Proof.
+  split.
+  - intros l. destruct l as [|a [|b [|c [|d r]]]]; intros H; exact H.
+  - repeat split; vm_compute; reflexivity.
+Qed.
+
 (** *** (family scaling) the padded lengths main() hands to the fields, over the definitions GENERATED from
     main() on every run (Gen/Gen_ScalingZ.v; replaces the former text check of the main.cpp lines).
     spacing_bins = round(fl(GridSize*spacing_ps)); the radiation field's length is ceil(fl(GridSize*max(padding,1)));
